@@ -32,6 +32,20 @@ enum FrameUT {
     GreaseThenClose,
     /// a HEADERS frame (trailers; skipped by the reader) followed by the close capsule
     HeadersThenClose,
+    /// more skipped bytes than one maximal frame (two unknown-type frames of 3000 bytes), then the
+    /// close capsule: whatever the reader buffers for resumption covers all of it
+    BigUnknownThenClose,
+    /// a close capsule with a long, non-repeating reason in ~50 pieces, each followed at once (no
+    /// pause) by the event: the next piece is usually readable when the interrupted read resumes
+    LongCloseManyPieces,
+}
+
+fn close_reason(frame: FrameUT) -> Vec<u8> {
+    if frame == FrameUT::LongCloseManyPieces {
+        (0..1000usize).map(|k| 0x21 + ((k * 7 + k / 94 * 13) % 94) as u8).collect()
+    } else {
+        CLOSE_REASON.to_vec()
+    }
 }
 
 fn close_prefix(frame: FrameUT) -> Vec<u8> {
@@ -39,6 +53,7 @@ fn close_prefix(frame: FrameUT) -> Vec<u8> {
         FrameUT::UnknownCapsuleThenClose => h3::frame(h3::FRAME_DATA, &capsule::encode(0x1f * 5 + 0x17, b"unknown capsule body")),
         FrameUT::GreaseThenClose => h3::frame(h3::grease(21), b"skipped"),
         FrameUT::HeadersThenClose => crate::raw::headers_frame(&[(b"x-trailer", b"1")]),
+        FrameUT::BigUnknownThenClose => [h3::frame(0x33, &vec![0x04u8; 3000]), h3::frame(0x33, &vec![0x00u8; 3000])].concat(),
         _ => vec![],
     }
 }
@@ -133,12 +148,13 @@ async fn run_case(role: Role, frame: FrameUT, cuts: &[usize], ev: Event, pause: 
                 Err(e) => Outcome::NotEstablished(format!("probe after GREASE frame: {e}")),
             }
         }
-        FrameUT::CloseCapsule | FrameUT::UnknownCapsuleThenClose | FrameUT::GreaseThenClose | FrameUT::HeadersThenClose => {
+        FrameUT::CloseCapsule | FrameUT::UnknownCapsuleThenClose | FrameUT::GreaseThenClose | FrameUT::HeadersThenClose | FrameUT::BigUnknownThenClose | FrameUT::LongCloseManyPieces => {
             let mut live = live;
             // cuts range over the whole byte string (both frames)
             let mut bytes = close_prefix(frame);
             let base = 0;
-            bytes.extend(h3::frame(h3::FRAME_DATA, &capsule::close(CLOSE_CODE, CLOSE_REASON)));
+            bytes.extend(h3::frame(h3::FRAME_DATA, &capsule::close(CLOSE_CODE, &close_reason(frame))));
+            let pause = if frame == FrameUT::LongCloseManyPieces { Duration::ZERO } else { pause };
             let cuts: Vec<usize> = cuts.iter().map(|c| base + c).collect();
             let mut s = live.sess_send.take().ok_or("session stream already taken")?;
             let sid = live.sid;
@@ -162,8 +178,8 @@ fn frame_len(role: Role, frame: FrameUT) -> usize {
         FrameUT::Settings => s.control.len(),
         FrameUT::GreaseAfterSettings => h3::frame(h3::grease(11), b"grease payload").len(),
         FrameUT::Headers => s.headers.len(),
-        FrameUT::CloseCapsule => h3::frame(h3::FRAME_DATA, &capsule::close(CLOSE_CODE, CLOSE_REASON)).len(),
-        FrameUT::UnknownCapsuleThenClose | FrameUT::GreaseThenClose | FrameUT::HeadersThenClose => close_prefix(frame).len() + h3::frame(h3::FRAME_DATA, &capsule::close(CLOSE_CODE, CLOSE_REASON)).len(),
+        FrameUT::CloseCapsule | FrameUT::LongCloseManyPieces => h3::frame(h3::FRAME_DATA, &capsule::close(CLOSE_CODE, &close_reason(frame))).len(),
+        FrameUT::UnknownCapsuleThenClose | FrameUT::GreaseThenClose | FrameUT::HeadersThenClose | FrameUT::BigUnknownThenClose => close_prefix(frame).len() + h3::frame(h3::FRAME_DATA, &capsule::close(CLOSE_CODE, CLOSE_REASON)).len(),
     }
 }
 
@@ -181,9 +197,9 @@ pub fn run(args: &Args) -> Report {
     let _ = rv::MAX;
     let roles = [Role::Server, Role::Client];
     let frames: Vec<FrameUT> = if args.thorough {
-        vec![FrameUT::Settings, FrameUT::GreaseAfterSettings, FrameUT::Headers, FrameUT::CloseCapsule, FrameUT::UnknownCapsuleThenClose, FrameUT::GreaseThenClose, FrameUT::HeadersThenClose]
+        vec![FrameUT::Settings, FrameUT::GreaseAfterSettings, FrameUT::Headers, FrameUT::CloseCapsule, FrameUT::UnknownCapsuleThenClose, FrameUT::GreaseThenClose, FrameUT::HeadersThenClose, FrameUT::BigUnknownThenClose, FrameUT::LongCloseManyPieces]
     } else {
-        vec![FrameUT::Settings, FrameUT::CloseCapsule, FrameUT::GreaseAfterSettings, FrameUT::Headers, FrameUT::GreaseThenClose, FrameUT::HeadersThenClose]
+        vec![FrameUT::Settings, FrameUT::CloseCapsule, FrameUT::GreaseAfterSettings, FrameUT::Headers, FrameUT::GreaseThenClose, FrameUT::HeadersThenClose, FrameUT::BigUnknownThenClose, FrameUT::LongCloseManyPieces]
     };
     let events: Vec<Event> = if args.thorough { EVENTS.to_vec() } else { vec![Event::None, Event::DatagramSession, Event::UniWt, Event::BiWt, Event::QpackEncoderBytes] };
     let mut cases: Vec<Case> = vec![];
@@ -192,7 +208,27 @@ pub fn run(args: &Args) -> Report {
         for &frame in &frames {
             let len = frame_len(role, frame);
             let mut cut_sets: Vec<Vec<usize>> = vec![];
-            let singles: Vec<usize> = if args.thorough || len <= 12 {
+            if frame == FrameUT::LongCloseManyPieces {
+                for step in if args.thorough { vec![20usize, 13, 37] } else { vec![20] } {
+                    let cs: Vec<usize> = (step..len).step_by(step).collect();
+                    for &ev in &events {
+                        if ev != Event::None {
+                            cases.push(Case { role, frame, cuts: cs.clone(), ev, multi: rng.chance(2, 3) });
+                        }
+                    }
+                }
+                continue;
+            }
+            let singles: Vec<usize> = if frame == FrameUT::BigUnknownThenClose {
+                let pl = close_prefix(frame).len();
+                let mut v = vec![1, 3003, pl - 1, pl, pl + 1, pl + 2, pl + 3, pl + 7, len - 1];
+                if args.thorough {
+                    v.extend((pl + 4..len - 1).step_by(3));
+                }
+                v.sort_unstable();
+                v.dedup();
+                v
+            } else if args.thorough || len <= 12 {
                 (1..len).collect()
             } else if matches!(frame, FrameUT::Settings | FrameUT::CloseCapsule) {
                 // quick: every position of the frame header region + a sample of the rest
@@ -203,7 +239,7 @@ pub fn run(args: &Args) -> Report {
                 v.sort_unstable();
                 v.dedup();
                 v
-            } else if matches!(frame, FrameUT::GreaseThenClose | FrameUT::HeadersThenClose) {
+            } else if matches!(frame, FrameUT::GreaseThenClose | FrameUT::HeadersThenClose | FrameUT::BigUnknownThenClose) {
                 // quick: the cut falls inside the frame that follows the skipped one
                 let pl = close_prefix(frame).len();
                 vec![1, pl, pl + 1, pl + 2, pl + 3, pl + 7, len - 1]
@@ -258,7 +294,7 @@ pub fn run(args: &Args) -> Report {
                     }
                     if let Some(o) = ok {
                         if let Outcome::Closed { code, reason } = &o {
-                            if *code != CLOSE_CODE as u64 || reason != CLOSE_REASON {
+                            if *code != CLOSE_CODE as u64 || *reason != close_reason(frame) {
                                 rep.violation(format!("C05|control|{role:?}|{frame:?}"), format!("unsegmented close capsule reported as ({code:#x}, {:?})", String::from_utf8_lossy(reason)), J::Null);
                             }
                         }
